@@ -151,3 +151,31 @@ def garbage_cases(root, seed, n_frames=30):
     finally:
         sc.stop(); shutil.rmtree(d, ignore_errors=True)
     return {'garbage_frames': n_frames, 'requests_ok_alongside': ok, 'fails': fails, 'samples': []}
+
+
+def hostile_first_requests(root):
+    """well-formed Compile frames with hostile contents as the FIRST request a fresh server sees for a compiler (a working directory that does not
+    exist, an option that derails compiler detection, no arguments at all), sent on a raw socket; afterwards ordinary clients using the same
+    compiler on other connections must be served exactly as if nothing had happened"""
+    fails = []; ok = 0; n = 0
+    real_clang = os.path.realpath('/usr/bin/clang')
+    for exe in ('/usr/bin/gcc', real_clang):
+        for vi, (cwd, args) in enumerate((('/nonexistent-dir', ['-c', 'x.c']), (None, ['-ccbin', '/nonexistent', '-c', 'x.c']), (None, []), (None, ['--version']))):
+            d = os.path.join(root, f'h{n}'); shutil.rmtree(d, ignore_errors=True); w = os.path.join(d, 'w'); os.makedirs(w); n += 1
+            sc = Sc(os.path.join(d, 'sc'), f'c11h{n}'); sc.start()
+            try:
+                ans = sc.raw_compile(exe, cwd or w, args)
+                open(os.path.join(w, 'a.c'), 'w').write('int a(void){return 7;}\n')
+                ops = [f'fresh server; raw Compile frame exe={exe} cwd={cwd or "<work dir>"} args={args} -> {len(ans)} answer bytes']
+                for j in range(2):
+                    out = os.path.join(w, f'a{j}.o')
+                    r = sc.compile([exe, '-c', 'a.c', '-o', f'a{j}.o'], w)
+                    ops.append(f'ordinary client: {os.path.basename(exe)} -c a.c -o a{j}.o -> rc={r.returncode}')
+                    dr = subprocess.run([exe, '-c', 'a.c', '-o', 'direct.o'], cwd=w, capture_output=True)
+                    same = os.path.exists(out) and open(out, 'rb').read() == open(os.path.join(w, 'direct.o'), 'rb').read()
+                    if r.returncode == 0 and same: ok += 1
+                    else:
+                        fails.append({'kind': 'request_disturbed_by_earlier_connection', 'detail': f'after a hostile first request for {exe} (variant {vi}) an ordinary compile with that compiler on another connection gave rc={r.returncode}, object equal to direct compile: {same}; stderr {r.stderr[:120]!r}', 'ops': ops}); break
+            finally:
+                sc.stop(); shutil.rmtree(d, ignore_errors=True)
+    return {'hostile_first_requests': n, 'requests_ok_after': ok, 'fails': fails[:2], 'samples': []}
